@@ -296,6 +296,46 @@ def add_length(u, cv):
         inserts=[('prev_point = next_point;', tri + '\n' + last), ('for i in', entry)]))
 
 
+def add_search(u, cv):
+    """binary_search_point: the returned pair is (t, curve(t)) and is no farther from the query than the end point and every coarse sample.
+    The generic `I: IntoIterator<Item = (T, Point<T>)>` is instantiated at `Vec<(R, Point<R>)>` (D3; Verus needs the iterator's
+    specification). Partial correctness only: the refinement loop carries no decreases clause (its termination in exact reals depends on
+    the halving reaching epsilon while the walk can continue indefinitely)."""
+    P, N = cv.path, cv.name
+    gh = 'impl<T: Real> %s<T>' % N
+    sh = cv.sh
+    pts = cv.points('self')
+    ev = lambda tt: bern(cv.deg, pts, leaf(tt))
+    d2 = lambda a: X.verus((SV.of(sh, a) - SV.of(sh, 'p')).norm2())
+    on_curve = lambda pt, tt: ' && '.join('%s.%s.v@ == %s' % (pt, f, X.verus(ev(tt)[i])) for i, f in enumerate(sh.fields))
+    samples_ok = lambda q: 'forall|j: int| 0 <= j < %s.len() ==> (%s)' % (q, on_curve('(#[trigger] %s[j]).1' % q, '%s[j].0.v@' % q))
+    req = ['epsilon.v@ > eps_r()', samples_ok('coarse@')]
+    ens = [on_curve('res.1', 'res.0.v@'),
+           '%s <= %s' % (d2('res.1'), d2('self.end')),
+           'forall|j: int| 0 <= j < coarse@.len() ==> %s <= %s' % (d2('res.1'), d2('(#[trigger] coarse@[j]).1'))]
+    best = ['d.v@ == ' + d2('pt'), on_curve('pt', 't.v@'), 'd.v@ <= ' + d2('self.end')]
+    inv_for = ['it.seq() == cs', samples_ok('cs')] + best + [
+        'forall|j: int| 0 <= j < it.index@ ==> d.v@ <= %s' % d2('(#[trigger] cs[j]).1')]
+    inv_while = best + ['forall|j: int| 0 <= j < cs.len() ==> d.v@ <= %s' % d2('(#[trigger] cs[j]).1')]
+    at_one = 'proof { %s }' % ' '.join('crate::lemma_bern%d_at_one(%s, t.v@);' % (cv.deg, ', '.join('self.%s.%s.v@' % (q, f) for q in cv.pts))
+                                       for f in sh.fields)
+    sym = 'proof { %s }' % ' '.join('crate::lemma_dist2_sym%d(%s, %s);' % (sh.dim, ', '.join('p.%s.v@' % f for f in sh.fields),
+                                                                             ', '.join('%s.%s.v@' % (q, f) for f in sh.fields)) for q in ('p1', 'p2'))
+    u.take(P, gh, 'binary_search_point', C(
+        requires=req, ensures=ens, tsubst={'I': 'Vec<(R, %s<R>)>' % sh.name}, attrs=['exec_allows_no_decreases_clause'],
+        loops=[dict(iter='it', invariant=inv_for), dict(invariant=inv_while)],
+        inserts=[('let mut d =', at_one), ('for (t_, pt_) in', 'let ghost cs = coarse@;'), ('if d1 < d || d2 < d', sym)]))
+
+
+def dist_sym_lemmas():
+    out = []
+    for n in (2, 3):
+        a, b = SV.params('a', n), SV.params('b', n)
+        out.append(L.Lemma('lemma_dist2_sym%d' % n, a.e + b.e, [], [(a - b).norm2().eq((b - a).norm2())],
+                           doc='the squared distance is symmetric'))
+    return out
+
+
 def plan(exp, tier):
     p = driver.Plan('C15')
     u = vec_unit(exp, 'c15', [VEC['Vec2'], VEC['Vec3'], VEC['Vec4']])
@@ -314,6 +354,7 @@ def plan(exp, tier):
         add_quad_theorems(u, cv, lq)
         add_quad_box_theorem(u, cv, lq)
         add_length(u, cv)
+        add_search(u, cv)
     lc = cubic_root_lemma()
     for dim in (2, 3):
         cv = Curve(3, dim)
@@ -323,7 +364,8 @@ def plan(exp, tier):
         add_cubic(u, cv)
         add_cubic_theorems(u, cv, lc)
         add_length(u, cv)
-    lt = triangle_lemmas() + [bern_end_lemma(2), bern_end_lemma(3)]
+        add_search(u, cv)
+    lt = triangle_lemmas() + [bern_end_lemma(2), bern_end_lemma(3)] + dist_sym_lemmas()
     import prelude
     u.add_root(prelude.FROM_U16)
     for lm in lq + lc + lt:
